@@ -1,11 +1,14 @@
 (* C07 — defer / panic / recover.  Definitions only.
    Call trees: a program is a table of function bodies; a body is a list of actions.
    [sem_*]  : reference semantics = what Go does (validated against compiled Go by the harness).
-   [m_*]    : model of gomacro's mechanism (fast/code.go reExecWithFlags, rundefer, pushDefer, popDefer,
-              maybeRepanic, restore; fast/builtin.go callRecover): per-goroutine Run state
+   [mc_* fx] : model of gomacro's mechanism (fast/code.go reExecWithFlags, rundefer, pushDefer, popDefer,
+              restorePanic, maybeRepanic, restore; fast/builtin.go callRecover): per-goroutine Run state
               Panic / PanicFun / DeferOfFun / ExecFlags.IsDefer / ExecFlags.StartDefer, the per-call locals
               panicking / panicking2, Go's own defer stack and Go's own in-flight panic (abstracted as LIFO list
-              and [option Z]: Go's documented semantics). *)
+              and [option Z]: Go's documented semantics).
+              fx = true : the code after fix C07-1 (rundefer starts with `defer restorePanic(run, run.Panic, run.PanicFun)`);
+              fx = false: the code before it (kept for the refutation witness and for checking unfixed trees).
+   [m_*]    : notation for [mc_* true], the code that exists now. *)
 From Coq Require Import List ZArith Bool.
 Import ListNotations.
 Open Scope Z_scope.
@@ -162,7 +165,12 @@ Definition pop_defer (oldDeferOf : option nat) (oldIsDefer : bool) (g : G) : G :
 Definition set_panic (v : option Z) (g : G) : G :=
   mkG v (gPanicFun g) (gDeferOf g) (gIsDefer g) (gStartDefer g) (gNext g).
 
-Fixpoint m_acts (n : nat) (P : prog) (acts : list act) (r : Z) (ds : list dfr) (g : G) (tr : list Z)
+(* restorePanic(run, panik, panicFun): deferred first in rundefer, hence runs last (after popDefer), on both exits.
+   Absent before fix C07-1 (fx = false). *)
+Definition restore_panic (fx : bool) (pn : option Z) (pf : option nat) (g : G) : G :=
+  if fx then mkG pn pf (gDeferOf g) (gIsDefer g) (gStartDefer g) (gNext g) else g.
+
+Fixpoint mc_acts (fx : bool) (n : nat) (P : prog) (acts : list act) (r : Z) (ds : list dfr) (g : G) (tr : list Z)
   {struct n} : option (res * Z * list dfr * G * list Z) :=
   match n with
   | O => None
@@ -171,38 +179,38 @@ Fixpoint m_acts (n : nat) (P : prog) (acts : list act) (r : Z) (ds : list dfr) (
     | [] => Some (RNormal, r, ds, g, tr)
     | a :: rest =>
       match a with
-      | AEmit k => m_acts n' P rest r ds g (k :: tr)
-      | ASetR k => m_acts n' P rest k ds g tr
-      | AAddR k => m_acts n' P rest (r + k) ds g tr
+      | AEmit k => mc_acts fx n' P rest r ds g (k :: tr)
+      | ASetR k => mc_acts fx n' P rest k ds g tr
+      | AAddR k => mc_acts fx n' P rest (r + k) ds g tr
       | APanic v => Some (RPanic v, r, ds, g, tr)           (* a Go panic is now in flight *)
       | ACall f =>
-          match m_frame n' P (body_of P f) 0 g tr with
-          | Some (RNormal, x, g1, tr1) => m_acts n' P rest r ds g1 ((500 + x) :: tr1)
+          match mc_frame fx n' P (body_of P f) 0 g tr with
+          | Some (RNormal, x, g1, tr1) => mc_acts fx n' P rest r ds g1 ((500 + x) :: tr1)
           | Some (RPanic v, _, g1, tr1) => Some (RPanic v, r, ds, g1, tr1)
           | None => None
           end
-      | ADeferClo b => m_acts n' P rest r (DClo b :: ds) g tr   (* SigDefer: `defer rundefer(fun)` *)
-      | ADeferFn f => m_acts n' P rest r (DFn f :: ds) g tr
-      | ARecover => let '(x, g1) := call_recover g in m_acts n' P rest r ds g1 (rec_event x :: tr)
+      | ADeferClo b => mc_acts fx n' P rest r (DClo b :: ds) g tr   (* SigDefer: `defer rundefer(fun)` *)
+      | ADeferFn f => mc_acts fx n' P rest r (DFn f :: ds) g tr
+      | ARecover => let '(x, g1) := call_recover g in mc_acts fx n' P rest r ds g1 (rec_event x :: tr)
       | ARecoverDeep =>
           (* rec() is an interpreted function: its activation has its own IsDefer *)
           let '(fid, saved, ge) := enter g in
           let '(x, g1) := call_recover ge in
-          m_acts n' P rest r ds (leave fid saved g1) (rec_event x :: tr)
+          mc_acts fx n' P rest r ds (leave fid saved g1) (rec_event x :: tr)
       end
     end
   end
 
-with m_frame (n : nat) (P : prog) (body : list act) (r : Z) (g : G) (tr : list Z)
+with mc_frame (fx : bool) (n : nat) (P : prog) (body : list act) (r : Z) (g : G) (tr : list Z)
   {struct n} : option (res * Z * G * list Z) :=
   match n with
   | O => None
   | S n' =>
     let '(fid, saved, ge) := enter g in
-    match m_acts n' P body r [] ge tr with
+    match mc_acts fx n' P body r [] ge tr with
     | Some (o, r1, ds, g1, tr1) =>
         (* panicking stays true unless the body ended normally *)
-        match m_defers n' P fid ds r1 (match o with RPanic _ => true | RNormal => false end) false (pan_of o) g1 tr1 with
+        match mc_defers fx n' P fid ds r1 (match o with RPanic _ => true | RNormal => false end) false (pan_of o) g1 tr1 with
         | Some (infl, r2, g2, tr2) => Some (res_of infl, r2, leave fid saved g2, tr2)
         | None => None
         end
@@ -211,7 +219,7 @@ with m_frame (n : nat) (P : prog) (body : list act) (r : Z) (g : G) (tr : list Z
   end
 
 (* Go runs the deferred rundefer(fun) closures LIFO.  p = panicking, p2 = panicking2, infl = Go's in-flight panic *)
-with m_defers (n : nat) (P : prog) (fid : nat) (ds : list dfr) (r : Z) (p p2 : bool) (infl : option Z)
+with mc_defers (fx : bool) (n : nat) (P : prog) (fid : nat) (ds : list dfr) (r : Z) (p p2 : bool) (infl : option Z)
               (g : G) (tr : list Z) {struct n} : option (option Z * Z * G * list Z) :=
   match n with
   | O => None
@@ -219,44 +227,55 @@ with m_defers (n : nat) (P : prog) (fid : nat) (ds : list dfr) (r : Z) (p p2 : b
     match ds with
     | [] => Some (infl, r, g, tr)
     | d :: rest =>
+        (* defer restorePanic(run, run.Panic, run.PanicFun): the arguments are evaluated here *)
+        let savedPanic := gPanic g in
+        let savedPanicFun := gPanicFun g in
         (* if panicking || panicking2 { panicking = true; panicking2 = false; run.Panic = recover() } *)
         let '(p, infl, g) := if p || p2 then (true, @None Z, set_panic infl g) else (p, infl, g) in
         let oldDeferOf := gDeferOf g in
         let oldIsDefer := gIsDefer g in
         let g := push_defer fid p g in
         match (match d with
-               | DClo b => m_frame n' P b r g tr
-               | DFn f => match m_frame n' P (body_of P f) 0 g tr with
+               | DClo b => mc_frame fx n' P b r g tr
+               | DFn f => match mc_frame fx n' P (body_of P f) 0 g tr with
                           | Some (o, _, g1, t) => Some (o, r, g1, t)
                           | None => None
                           end
                end) with
         | Some (RPanic v2, r1, g1, tr1) =>
             (* fun() panicked: panicking2 stays true, popDefer runs while unwinding *)
-            m_defers n' P fid rest r1 p true (Some v2) (pop_defer oldDeferOf oldIsDefer g1) tr1
+            mc_defers fx n' P fid rest r1 p true (Some v2) (restore_panic fx savedPanic savedPanicFun (pop_defer oldDeferOf oldIsDefer g1)) tr1
         | Some (RNormal, r1, g1, tr1) =>
             (* panicking2 = false; if panicking { panicking = maybeRepanic(run) } *)
             if p then
               match gPanicFun g1 with
-              | Some _ => m_defers n' P fid rest r1 true false
+              | Some _ => mc_defers fx n' P fid rest r1 true false
                             (Some (match gPanic g1 with Some v => v | None => 0 end))
-                            (pop_defer oldDeferOf oldIsDefer g1) tr1
-              | None => m_defers n' P fid rest r1 false false None (pop_defer oldDeferOf oldIsDefer g1) tr1
+                            (restore_panic fx savedPanic savedPanicFun (pop_defer oldDeferOf oldIsDefer g1)) tr1
+              | None => mc_defers fx n' P fid rest r1 false false None (restore_panic fx savedPanic savedPanicFun (pop_defer oldDeferOf oldIsDefer g1)) tr1
               end
-            else m_defers n' P fid rest r1 false false infl (pop_defer oldDeferOf oldIsDefer g1) tr1
+            else mc_defers fx n' P fid rest r1 false false infl (restore_panic fx savedPanic savedPanicFun (pop_defer oldDeferOf oldIsDefer g1)) tr1
         | None => None
         end
     end
   end.
 
-Definition m_run (n : nat) (P : prog) (top : nat) : option (res * Z * list Z) :=
-  match m_frame n P (body_of P top) 0 g0 [] with
+Notation m_acts := (mc_acts true).
+Notation m_frame := (mc_frame true).
+Notation m_defers := (mc_defers true).
+
+Definition mc_run (fx : bool) (n : nat) (P : prog) (top : nat) : option (res * Z * list Z) :=
+  match mc_frame fx n P (body_of P top) 0 g0 [] with
   | Some (o, r, _, tr) => Some (o, r, tr)
   | None => None
   end.
 
+Definition m_run (n : nat) (P : prog) (top : nat) : option (res * Z * list Z) := mc_run true n P top.
+
 (* ------------------------------------------------------------------ correspondence support *)
-Record case := mkCase { c_idx : Z; c_prog : prog; c_top : nat; c_fuel : nat;
+(* c_fixed: whether the tree under test contains fix C07-1 (decided by the harness by replaying the recorded input
+   of the finding on the real code); it selects which of the two described code versions must reproduce the observation *)
+Record case := mkCase { c_idx : Z; c_fixed : bool; c_prog : prog; c_top : nat; c_fuel : nat;
                         c_trace : list Z; c_result : Z; c_panic : option Z }.
 
 Fixpoint zs_eqb (a b : list Z) : bool :=
@@ -274,6 +293,6 @@ Definition obs_ok (c : case) (x : option (res * Z * list Z)) : bool :=
   end.
 
 Definition case_ok (c : case) : bool :=
-  obs_ok c (sem_run (c_fuel c) (c_prog c) (c_top c)) && obs_ok c (m_run (c_fuel c) (c_prog c) (c_top c)).
+  obs_ok c (sem_run (c_fuel c) (c_prog c) (c_top c)) && obs_ok c (mc_run (c_fixed c) (c_fuel c) (c_prog c) (c_top c)).
 
 Definition mismatches (cs : list case) : list Z := map c_idx (filter (fun c => negb (case_ok c)) cs).
